@@ -1,7 +1,7 @@
 /* C14/C15/C16: LWE linear operations, every n >= 1 symbolic and unbounded (loop contracts). */
 #include "verif_prelude.h"
 #include "c_lwe.h"
-int32_t g_k;
+int32_t g_k, g_n;
 #include "extracted.inc"
 
 #define HAVOC_GHOST() do_havoc_ghost()
@@ -14,6 +14,7 @@ void h_lweNoiselessTrivial(void) { LweSample *r; Torus32 mu; const LweParams *p;
 void h_lweAddTo(void) { LweSample *r; const LweSample *s; const LweParams *p; HAVOC_GHOST(); lweAddTo(r, s, p); VERIF_REACH(); }
 void h_lweSubTo(void) { LweSample *r; const LweSample *s; const LweParams *p; HAVOC_GHOST(); lweSubTo(r, s, p); VERIF_REACH(); }
 void h_lweAddMulTo(void) { LweSample *r; int32_t pp; const LweSample *s; const LweParams *p; HAVOC_GHOST(); lweAddMulTo(r, pp, s, p); VERIF_REACH(); }
+void h_lwePhase(void) { const LweSample *s; const LweKey *k; int32_t nn; g_n = nn; Torus32 r = lwePhase(s, k); (void)r; VERIF_REACH(); }
 void h_lweSubMulTo(void) { LweSample *r; int32_t pp; const LweSample *s; const LweParams *p; HAVOC_GHOST(); lweSubMulTo(r, pp, s, p); VERIF_REACH(); }
 
 /* ---- bounded stand-ins (labelled bounded, never counted as proved): concrete small n, loops unwound,
